@@ -39,7 +39,23 @@ class ConcreteCtx:
 
     def get(self, name, default, n=None):
         """value of constant `name` in the model; n: the value is an index below n"""
-        return self.model.get(name, default)
+        if name in self.model:
+            v = self.model[name]
+            if not (isinstance(v, dict) and '__fn__' in v):
+                return v
+        # an attribute of element k of a symbolic sequence is a function of the index in the model:
+        # 'xs[3].attr'  ->  the interpretation of 'xs[].attr' at 3
+        import re as _re
+        idx = [int(k) for k in _re.findall(r'\[(\d+)\]', name)]
+        if idx:
+            fn = self.model.get(_re.sub(r'\[\d+\]', '[]', name))
+            if isinstance(fn, dict) and '__fn__' in fn:
+                for args, value in fn['__fn__']:
+                    if list(args) == idx or list(args) == idx[-len(args):]:
+                        return value if not isinstance(value, str) or isinstance(default, str) else default
+                v = fn.get('else', default)
+                return v if not isinstance(v, str) or isinstance(default, str) else default
+        return default
 
 
 class RandomCtx(ConcreteCtx):
